@@ -10,7 +10,8 @@ import subprocess
 import sys
 import time
 
-V = os.path.dirname(os.path.dirname(os.path.abspath(__file__)))
+V0 = os.path.dirname(os.path.dirname(os.path.abspath(__file__)))
+V = V0
 
 
 def main():
@@ -18,9 +19,15 @@ def main():
     ap.add_argument("ids", nargs="*")
     ap.add_argument("--props", default="own")
     ap.add_argument("--tier", default="quick")
-    ap.add_argument("--out", default=os.path.join(V, "seeded", "RESULTS.json"))
+    ap.add_argument("--out", default=os.path.join(V0, "seeded", "RESULTS.json"))
+    ap.add_argument("--inplace", action="store_true", help="run in this checkout (evidence and Generated/ files are overwritten)")
     a = ap.parse_args()
-    man = json.load(open(os.path.join(V, "MANIFEST.json")))
+    global V
+    if not a.inplace:
+        # work in a scratch copy so that evidence/ and lean/FteikVerif/Generated/ of the checkout stay those of the unchanged tree
+        V = "/tmp/verif_seedrun_%d" % os.getpid()
+        subprocess.run(["rsync", "-a", "--delete", "--exclude", ".git", V0 + "/", V + "/"], check=True)
+    man = json.load(open(os.path.join(V0, "MANIFEST.json")))
     registered = [c["property_id"] for c in man["checks"]]
     ids = a.ids or sorted(d for d in os.listdir(os.path.join(V, "seeded")) if os.path.isdir(os.path.join(V, "seeded", d)))
     results = json.load(open(a.out)) if os.path.exists(a.out) else {}
@@ -57,6 +64,8 @@ def main():
         finally:
             subprocess.run(["git", "-C", "/repo", "worktree", "remove", "--force", wt], capture_output=True)
             json.dump(results, open(a.out, "w"), indent=1, sort_keys=True)
+    if not a.inplace:
+        subprocess.run(["rm", "-rf", V])
 
 
 if __name__ == "__main__":
